@@ -190,6 +190,11 @@ def Graph.removeNode (g : Graph E) (n : Node E) : Graph E :=
 def Graph.removeEdge (g : Graph E) (u v : Node E) : Graph E :=
   g.map (fun p => if p.1 = u then (p.1, p.2.filter (fun q => q.1 != v)) else p)
 
+/-- one step of the loop in `from_dict`: `output` is only recorded, a compartment is `add_compartment`ed -/
+def Graph.addComp (g : Graph E) : Node E → Graph E
+  | .output => g
+  | .comp k => g.addNode (.comp k)
+
 /-- `CompartmentalSystemBuilder()` -/
 def Graph.builderInit : Graph E := [(.output, [])]
 
@@ -230,7 +235,7 @@ def CompSys.fromDict (d : Json) : Option (CompSys E) := do
   let cds ← getArr d "compartments"
   let comps ← allSome (Node.fromDict c) cds
   -- the builder starts with `output`; every non-output entry is `add_compartment`ed
-  let g0 : Graph E := comps.foldl (fun g n => match n with | .output => g | n => g.addNode n) Graph.builderInit
+  let g0 : Graph E := comps.foldl Graph.addComp Graph.builderInit
   let rs ← getArr d "rates"
   let es ← allSome (edgeFromJson c comps) rs
   let g := es.foldl (fun g e => g.addEdge e.1 e.2.1 e.2.2) g0
@@ -386,6 +391,11 @@ def Deriv.str : Deriv E → String
   | .tup es => c.strT es
   | .raw s => s
 
+/-- what `cls(**d)` stores for one element of `d['derivatives']`: the string itself -/
+def Deriv.ofJson : Json → Option (Deriv E)
+  | .str s => some (.raw s)
+  | _ => none
+
 structure EstStep (E : Type) where
   method : Json
   interaction : Json
@@ -430,7 +440,7 @@ def EstStep.fromDict (d : Json) : Option (EstStep E) := do
   if !onlyKeys d ("class" :: estKeys) then none
   let method ← d.get? "method"
   let derivatives ← match kw d "derivatives" (.arr []) with
-    | .arr xs => allSome (fun j => match j with | .str s => some (Deriv.raw s) | _ => none) xs
+    | .arr xs => allSome Deriv.ofJson xs
     | _ => none
   some { method,
          interaction := kw d "interaction" (.bool false),
@@ -586,15 +596,18 @@ def Model.toDict (m : Model E M) : Json :=
         ("observation_transformation", .obj (m.observationTransformation.map (fun p => (c.ser p.1, .str (c.ser p.2))))),
         ("initial_individual_estimates", m.initialIndividualEstimates)]
 
+/-- one item of `d['observation_transformation']`: key and value are both deserialised -/
+def obsPairOf (p : String × Json) : Option (E × E) := do
+  let k ← c.de p.1
+  let v ← c.de (← p.2.asStr?)
+  some (k, v)
+
 /-- `Model.from_dict`; the new model has the default name and description -/
 def Model.fromDict (d : Json) : Option (Model E M) := do
   let initialIndividualEstimates ← d.get? "initial_individual_estimates"
   let dependentVariables ← (← d.get? "dependent_variables").asObj?
   let obs ← (← d.get? "observation_transformation").asObj?
-  let observationTransformation ← allSome (fun (p : String × Json) => do
-      let k ← c.de p.1
-      let v ← c.de (← p.2.asStr?)
-      some (k, v)) obs
+  let observationTransformation ← allSome (obsPairOf c) obs
   let parameters ← Parameters.fromDict (← d.get? "parameters")
   let randomVariables ← RandomVariables.fromDict c (← d.get? "random_variables")
   let statements ← Statements.fromDict c (← d.get? "statements")
